@@ -850,3 +850,101 @@ func RSentinel(c *core.Ctx) {
 		}
 	}
 }
+
+// R-SENTINELARG: the "-1 means unspecified" convention for parameters.
+func RSentinelArg(c *core.Ctx) {
+	c.Rule("R-SENTINELARG", "for every int parameter of a module function to which some call site passes the constant -1 ('unspecified'), the function separates the unspecified case with `< 0` / `== -1`, never with `<= 0`, `> 0`, `< 1`, `>= 1`: 0 is a position a caller may specify (FindNextMatch after a right-to-left match whose left edge is rune 0)", 3)
+	p := c.P
+	type pk struct {
+		fn  *ssa.Function
+		idx int
+	}
+	sentinel := map[pk]bool{}
+	for _, fn := range p.ModuleFuncs() {
+		for _, b := range fn.Blocks {
+			for _, ins := range b.Instrs {
+				call, ok := ins.(ssa.CallInstruction)
+				if !ok {
+					continue
+				}
+				cal := call.Common().StaticCallee()
+				if cal == nil || !core.InModule(cal) {
+					continue
+				}
+				for i, a := range call.Common().Args {
+					if k, isC := core.IntConst(a); isC && k == -1 && i < len(cal.Params) {
+						sentinel[pk{cal, i}] = true
+					}
+				}
+			}
+		}
+	}
+	n := 0
+	var keys []pk
+	for k := range sentinel {
+		keys = append(keys, k)
+	}
+	sort.Slice(keys, func(i, j int) bool {
+		if core.SSAName(keys[i].fn) != core.SSAName(keys[j].fn) {
+			return core.SSAName(keys[i].fn) < core.SSAName(keys[j].fn)
+		}
+		return keys[i].idx < keys[j].idx
+	})
+	for _, k := range keys {
+		prm := k.fn.Params[k.idx]
+		name := core.SSAName(k.fn)
+		bad := ""
+		cmp := 0
+		for _, r := range core.Referrers(prm) {
+			bin, ok := r.(*ssa.BinOp)
+			if !ok {
+				continue
+			}
+			x, y, op := bin.X, bin.Y, bin.Op
+			if y == ssa.Value(prm) {
+				x, y = y, x
+				switch op {
+				case token.LSS:
+					op = token.GTR
+				case token.GTR:
+					op = token.LSS
+				case token.LEQ:
+					op = token.GEQ
+				case token.GEQ:
+					op = token.LEQ
+				}
+			}
+			if x != ssa.Value(prm) {
+				continue
+			}
+			kk, isC := core.IntConst(y)
+			if !isC {
+				continue
+			}
+			cmp++
+			if (kk == 0 && (op == token.LEQ || op == token.GTR)) || (kk == 1 && (op == token.LSS || op == token.GEQ)) {
+				bad = fmt.Sprintf("%s %s %d at %s", prm.Name(), op, kk, p.Pos(bin.Pos()))
+			}
+		}
+		if cmp == 0 {
+			continue // the parameter is only passed on
+		}
+		n++
+		c.Visit(name)
+		if why, ok := sentinelArgExempt[name+"."+prm.Name()]; ok && bad != "" {
+			c.OK(fmt.Sprintf("%s / parameter %s (callers pass -1 for 'unspecified') is tested against -1, not 0", name, prm.Name()), k.fn.Pos(), "exempt: %s", why)
+			continue
+		}
+		c.Check(bad == "", fmt.Sprintf("%s / parameter %s (callers pass -1 for 'unspecified') is tested against -1, not 0", name, prm.Name()), k.fn.Pos(),
+			"the test `%s` also treats an explicit 0 as unspecified", bad)
+	}
+	if n == 0 {
+		c.Anchor("parameters that receive the constant -1 and are compared with a constant")
+	}
+}
+
+// parameters whose comparison with 0 is deliberate, each with the reason
+var sentinelArgExempt = map[string]string{
+	"regexp2.(*Regexp).matchStringAt.startAt":        "explicit positions reach it only from the left-to-right raw-string filter (R-RTLFILTER checks that call is under !RightToLeft()); for a left-to-right search position 0 and 'unspecified' are the same start",
+	"regexp2.(*pooledSliceBuffers).poolIndex.maxSize": "0 ('pooling disabled') is answered by the `maxSize == 0` return before this test; `maxSize > 0` then separates a real limit from -1 (unlimited)",
+}
